@@ -434,25 +434,15 @@ BASELINE = os.path.join(DATA, 'guards_baseline.json')
 
 
 def guard_tuples(P, tu, f, cat=None):
-    inv = {}
-    for en in ('IMB_CIPHER_MODE', 'IMB_HASH_ALG'):
-        for k, v in P.enum_types.get(en, {}).items():
-            inv.setdefault(en, {})[v] = k
+    """the reject guards of f as semantic tuples [error code, sorted atoms of the rejecting conjunction]: names of locals are not
+    facts (single-definition locals are replaced by their initialisers, others by their type); switch labels, enclosing
+    conditions and the guard's own condition are folded into one conjunction, a disjunction is one guard per disjunct, checks
+    factored out into helpers are attributed to the caller"""
     out = set()
-    # names of locals are not facts of the tree: single-definition locals are replaced by their initialisers, others by their type
     cat = guards.catalogue(f, abstract=True) if cat is None else cat
     for g in cat:
-        ctxs = []
-        if g['cases']:
-            for sexpr, vals in sorted(g['cases'].items()):
-                en = 'IMB_CIPHER_MODE' if 'cipher_mode' in sexpr else ('IMB_HASH_ALG' if 'hash' in sexpr else None)
-                names = sorted((inv.get(en, {}).get(v, str(v)) if v != 'default' else 'default') for v in vals)
-                ctxs.append([(sexpr, n) for n in names])
-        else:
-            ctxs.append([('-', '-')])
-        # cartesian product is not needed: guards sit in at most one relevant switch; use the innermost listed
-        for sexpr, name in ctxs[-1]:
-            out.add(json.dumps([sexpr, name, g['cond'], g['ctx'], g['err']]))
+        for conj in guards.normal_forms(g):
+            out.add(json.dumps([g['err'], list(conj)]))
     return out
 
 
@@ -494,8 +484,9 @@ def run_v9(chk, P):
                 if tu2 == tu and ('%s::%s' % (tu2, fn2)) not in base['functions']:
                     have |= tups
         for tjs in tl:
-            sexpr, name, cond, ctx, err = json.loads(tjs)
-            ik = '%s:%s[%s=%s] %s -> %s' % (tu.split('__')[0], fn, sexpr, name, cond, err.replace('IMB_ERR_', ''))
+            err, conj = json.loads(tjs)
+            ctxa = [a for a in conj if a.startswith(('cipher_mode ==', 'hash_alg ==', '(cipher_mode ==', '(hash_alg =='))]
+            ik = '%s:%s %s -> %s' % (tu.split('__')[0], fn, ' && '.join(conj)[:160], str(err).replace('IMB_ERR_', ''))
             if tjs in have:
                 r.ok(ik)
             else:
@@ -506,12 +497,12 @@ def run_v9(chk, P):
                 nmiss += 1
                 if nmiss <= 40:
                     # say what is there instead
-                    near = [json.loads(x) for x in have if json.loads(x)[1] == name and json.loads(x)[4] == err]
+                    near = [json.loads(x) for x in have if json.loads(x)[0] == err and set(ctxa) <= set(json.loads(x)[1])]
                     loc = (P.func(tu, fn).loc if P.has(tu, fn) else tu)
                     r.bad(ik, loc,
-                          'guard no longer present in %s (%s=%s): condition `%s`%s must be rejected with %s%s' % (
-                              fn, sexpr, name, cond, (' under ' + ' ; '.join(ctx)) if ctx else '', err,
-                              ('; now: ' + ' | '.join(str(n[2]) for n in near[:4])) if near else ''))
+                          'guard no longer present in %s: `%s` must be rejected with %s%s' % (
+                              fn, ' && '.join(conj), err,
+                              ('; guards with this error code now: ' + ' | '.join(' && '.join(n[1]) for n in near[:3])) if near else ''))
                 else:
                     r.instances += 1
     chk.extra['baseline_guards'] = sum(len(v) for v in base['functions'].values())
